@@ -79,8 +79,9 @@ class Budget(Exception):
 
 
 class Ctx(object):
-    def __init__(self, prop, tier, seed, shard=0, nshards=1, only=None):
+    def __init__(self, prop, tier, seed, shard=0, nshards=1, only=None, round=0):
         self.prop = prop
+        self.round = int(round)     # thorough tier: independent value draws over the same class lattice
         self.tier = tier
         self.thorough = (tier == 'thorough')
         self.seed = int(seed)
@@ -102,13 +103,13 @@ class Ctx(object):
     # ---- randomness -------------------------------------------------------------------------
     def rng(self, *names):
         import numpy as np
-        key = [self.seed, _crc(self.prop), self.shard] + [_crc(n) for n in names]
+        key = [self.seed, _crc(self.prop), self.shard, self.round] + [_crc(n) for n in names]
         return np.random.default_rng(np.random.PCG64(key))
 
     def crng(self, *names):
         """Generator independent of the shard (for things that must agree between shards)."""
         import numpy as np
-        key = [self.seed, _crc(self.prop)] + [_crc(n) for n in names]
+        key = [self.seed, _crc(self.prop), 0, self.round] + [_crc(n) for n in names]
         return np.random.default_rng(np.random.PCG64(key))
 
     # ---- sharding / tier --------------------------------------------------------------------
@@ -130,7 +131,7 @@ class Ctx(object):
         cls = str(cls)
         self.classes[cls] = self.classes.get(cls, 0) + 1
         if nontrivial:
-            h = hashlib.blake2b(repr((cls, key)).encode(), digest_size=8).hexdigest()
+            h = hashlib.blake2b(repr((cls, key, self.round)).encode(), digest_size=8).hexdigest()
             self.distinct.add(h)
 
     def seen(self, cls):
@@ -195,7 +196,7 @@ class Ctx(object):
     def dump(self):
         return {
             'prop': self.prop, 'tier': self.tier, 'seed': self.seed, 'shard': self.shard,
-            'nshards': self.nshards, 'monitors': self.monitors, 'evaluations': self.evaluations,
+            'nshards': self.nshards, 'round': self.round, 'monitors': self.monitors, 'evaluations': self.evaluations,
             'distinct': sorted(self.distinct), 'classes': self.classes,
             'required': sorted(self.required), 'samples': self.samples, 'viol': self.viol,
             'notes': self.notes, 'inconclusive': self.inconclusive, 'skipped': self.skipped,
@@ -236,11 +237,11 @@ def load_known():
 # worker (one shard, in a fresh process)
 
 
-def run_worker(prop, tier, seed, shard, nshards, only=None):
+def run_worker(prop, tier, seed, shard, nshards, only=None, round=0):
     os.environ['ODL_VERIF'] = '1'
     import_odl()
     mod = importlib.import_module('vf.props.' + prop.lower())
-    ctx = Ctx(prop, tier, seed, shard, nshards, only=only)
+    ctx = Ctx(prop, tier, seed, shard, nshards, only=only, round=round)
     try:
         mod.run(ctx)
     except Budget as e:
@@ -266,6 +267,18 @@ def shards_for(prop, tier):
         return DEFAULT_SHARDS[tier]
 
 
+DEFAULT_ROUNDS = 6
+
+
+def rounds_for(prop):
+    """Thorough tier: number of independent value-draw rounds over the (complete) class lattice."""
+    try:
+        mod = importlib.import_module('vf.props.' + prop.lower())
+        return int(getattr(mod, 'THOROUGH_ROUNDS', DEFAULT_ROUNDS))
+    except Exception:
+        return DEFAULT_ROUNDS
+
+
 def merge(dumps):
     out = {'monitors': {}, 'evaluations': 0, 'distinct': set(), 'classes': {}, 'required': set(),
            'samples': [], 'viol': {}, 'notes': {}, 'inconclusive': [], 'skipped': {}}
@@ -284,6 +297,7 @@ def merge(dumps):
             rec = dict(rec)
             rec['shard'] = d['shard']
             rec['nshards'] = d['nshards']
+            rec['round'] = d.get('round', 0)
             if sig in out['viol']:
                 out['viol'][sig]['count'] += rec['count']
             else:
@@ -312,7 +326,7 @@ def merge(dumps):
             else:
                 out['notes'].setdefault(k, v)
         for r in d['inconclusive']:
-            r = 'shard %d: %s' % (d['shard'], r)
+            r = 'shard %d/round %d: %s' % (d['shard'], d.get('round', 0), r)
             out['inconclusive'].append(r)
         for k, v in d['skipped'].items():
             out['skipped'][k] = out['skipped'].get(k, 0) + v
@@ -328,6 +342,8 @@ def main(argv=None):
     ap.add_argument('--out', default=None, help='internal: worker result file')
     ap.add_argument('--only', default=None, help='internal: signature filter')
     ap.add_argument('--shards', type=int, default=None)
+    ap.add_argument('--round', type=int, default=0, help='internal: value-draw round')
+    ap.add_argument('--rounds', type=int, default=None, help='override the number of thorough rounds')
     ap.add_argument('--no-evidence', action='store_true')
     args = ap.parse_args(argv)
     prop = args.prop.upper()
@@ -341,7 +357,7 @@ def main(argv=None):
 
     if args.worker:
         i, n = map(int, args.worker.split('/'))
-        d = run_worker(prop, args.tier, seed, i, n, only=args.only)
+        d = run_worker(prop, args.tier, seed, i, n, only=args.only, round=args.round)
         with open(args.out, 'w') as f:
             json.dump(d, f)
         return 0
@@ -350,7 +366,7 @@ def main(argv=None):
         with open(args.replay) as f:
             rp = json.load(f)
         os.environ['VERIF_SEED'] = str(rp['seed'])
-        d = run_worker(rp['property'], rp['tier'], rp['seed'], rp['shard'], rp['nshards'], only=rp['signature'])
+        d = run_worker(rp['property'], rp['tier'], rp['seed'], rp['shard'], rp['nshards'], only=rp['signature'], round=rp.get('round', 0))
         if rp['signature'] in d['viol']:
             print('REPRODUCED %s' % rp['signature'])
             print(json.dumps(d['viol'][rp['signature']], indent=1)[:4000])
@@ -369,30 +385,48 @@ def main(argv=None):
     env.setdefault('PYTHONHASHSEED', '0')
     env['OMP_NUM_THREADS'] = env['OPENBLAS_NUM_THREADS'] = env['MKL_NUM_THREADS'] = '1'
     env['PYTHONPATH'] = ROOT + os.pathsep + env.get('PYTHONPATH', '')
-    for i in range(nshards):
-        outf = os.path.join(tmpdir, 'w%d.json' % i)
-        logf = open(os.path.join(tmpdir, 'w%d.log' % i), 'w')
-        p = subprocess.Popen([PYTHON, '-m', 'vf.core', prop, '--tier', args.tier, '--worker',
-                              '%d/%d' % (i, nshards), '--out', outf],
-                             cwd=ROOT, env=env, stdout=logf, stderr=subprocess.STDOUT)
-        procs.append((i, p, outf, logf))
+    rounds = 1
+    if args.tier == 'thorough':
+        rounds = args.rounds or rounds_for(prop)
+    jobs = [(i, r) for r in range(rounds) for i in range(nshards)]
+    maxpar = max(1, min(16, os.cpu_count() or 4))
     dumps = []
     dead = []
     deadline = t0 + WORKER_TIMEOUT[args.tier]
-    for i, p, outf, logf in procs:
-        try:
-            p.wait(timeout=max(1, deadline - time.time()))
-        except subprocess.TimeoutExpired:
-            p.kill()
-            p.wait()
-            dead.append('worker %d: watchdog' % i)
-        logf.close()
-        if os.path.exists(outf):
-            with open(outf) as f:
-                dumps.append(json.load(f))
-        elif not any(s.startswith('worker %d:' % i) for s in dead):
-            tail = open(os.path.join(tmpdir, 'w%d.log' % i)).read()[-600:]
-            dead.append('worker %d: exit %s without result: %s' % (i, p.returncode, tail))
+    running = []
+
+    def reap(block):
+        for item in list(running):
+            i, r, p, outf, logf = item
+            try:
+                p.wait(timeout=(max(1, deadline - time.time()) if block else 0))
+            except subprocess.TimeoutExpired:
+                if time.time() < deadline:
+                    continue
+                p.kill()
+                p.wait()
+                dead.append('worker %d/round %d: watchdog' % (i, r))
+            running.remove(item)
+            logf.close()
+            if os.path.exists(outf):
+                with open(outf) as f:
+                    dumps.append(json.load(f))
+            elif not any(s_.startswith('worker %d/round %d:' % (i, r)) for s_ in dead):
+                tail = open(os.path.join(tmpdir, 'w%d_%d.log' % (i, r))).read()[-600:]
+                dead.append('worker %d/round %d: exit %s without result: %s' % (i, r, p.returncode, tail))
+            if block:
+                return
+
+    for i, r in jobs:
+        while len(running) >= maxpar:
+            reap(True)
+        outf = os.path.join(tmpdir, 'w%d_%d.json' % (i, r))
+        logf = open(os.path.join(tmpdir, 'w%d_%d.log' % (i, r)), 'w')
+        p = subprocess.Popen([PYTHON, '-m', 'vf.core', prop, '--tier', args.tier, '--worker', '%d/%d' % (i, nshards),
+                              '--round', str(r), '--out', outf], cwd=ROOT, env=env, stdout=logf, stderr=subprocess.STDOUT)
+        running.append((i, r, p, outf, logf))
+    while running:
+        reap(True)
     m = merge(dumps)
     m['inconclusive'].extend(dead)
 
@@ -418,7 +452,7 @@ def main(argv=None):
         path = os.path.join(rdir, hashlib.blake2b(sig.encode(), digest_size=6).hexdigest() + '.json')
         with open(path, 'w') as f:
             json.dump({'property': prop, 'signature': sig, 'seed': seed, 'tier': args.tier,
-                       'shard': rec.get('shard', 0), 'nshards': rec.get('nshards', nshards),
+                       'shard': rec.get('shard', 0), 'nshards': rec.get('nshards', nshards), 'round': rec.get('round', 0),
                        'count': rec['count'], 'detail': rec['detail'], 'stack': rec.get('stack', '')}, f, indent=1)
         lines.append('VIOLATION property=%s replay=%s signature=%s (x%d)' % (prop, os.path.relpath(path, ROOT), sig, rec['count']))
     for r in m['inconclusive']:
@@ -446,6 +480,7 @@ def main(argv=None):
             'new_violation_signatures': new,
             'inconclusive': m['inconclusive'],
             'shards': nshards,
+            'rounds': rounds,
             'notes': m['notes'],
             'exhaustive': bool(m['notes'].get('exhaustive', False)),
         },
@@ -463,8 +498,8 @@ def main(argv=None):
     for ln in lines:
         print(ln)
     verdict = 'violated' if new else ('inconclusive' if m['inconclusive'] else 'held')
-    print('%s %s tier=%s seed=%d shards=%d evaluations=%d distinct=%d monitors=%s known=%d new=%d wall=%.1fs'
-          % (prop, verdict.upper(), args.tier, seed, nshards, m['evaluations'], distinct,
+    print('%s %s tier=%s seed=%d shards=%dx%d evaluations=%d distinct=%d monitors=%s known=%d new=%d wall=%.1fs'
+          % (prop, verdict.upper(), args.tier, seed, nshards, rounds, m['evaluations'], distinct,
              json.dumps(m['monitors']), len(listed), len(new), wall))
     # clean work dir
     try:
